@@ -294,6 +294,23 @@ def stmts(ctx, body, env, depth):
                 return '%s%s %s' % (ind, ctx.calls[f], ' '.join(env[x][0] for x in ctx.field_order))
         v, vt = expr(ctx, s.value, env)
         return '%s(%s, Ok %s)' % (ind, state_text(ctx, env), ret_value(ctx, v, vt, s))
+    if isinstance(s, ast.Expr) and isinstance(s.value, ast.Call) and ast.unparse(s.value.func) in ctx.spec.get('stmt_calls', {}):
+        callee = ctx.spec['stmt_calls'][ast.unparse(s.value.func)]
+        if s.value.keywords:
+            err(s, 'keyword arguments in call')
+        args = []
+        for a_ in s.value.args:
+            v, vt = expr(ctx, a_, env)
+            if vt != 'Z':
+                err(s, 'non-int argument')
+            args.append(v)
+        cur = ' '.join(env[f][0] for f in ctx.field_order)
+        pat = ', '.join(ctx.field_order)
+        env2 = dict(env)
+        for f in ctx.field_order:
+            env2[f] = (f, env[f][1])
+        return ('%smatch %s %s %s with\n%s| ((%s), Ok _) =>\n%s\n%s| (st, Err e c s b) => (st, Err e c s b)\n%s| (st, Crash p) => (st, Crash p)\n%send'
+                % (ind, callee, cur, ' '.join(args), ind, pat, stmts(ctx, rest, env2, depth + 1), ind, ind, ind))
     if isinstance(s, ast.Assert):
         c = truth(ctx, s.test, env)
         return '%sif %s then\n%s\n%selse\n%s  (%s, Crash AssertionError)' % (
@@ -359,6 +376,12 @@ KERNELS = [
     dict(name='k_process_bytes', file='windows.py', qual='WindowManager.process_bytes',
          fields=WM_FIELDS, params=[('size', 'Z')], ret='optZ',
          calls={'self._maybe_update_window': 'k_maybe_update_window'}),
+    dict(name='k_stream_iws_delta', file='stream.py', qual='H2Stream._inbound_flow_control_change_from_settings',
+         fields=[('self._inbound_window_manager.max_window_size', 'mx', 'Z'),
+                 ('self._inbound_window_manager.current_window_size', 'cur', 'Z'),
+                 ('self._inbound_window_manager._bytes_processed', 'bp', 'Z')],
+         params=[('delta', 'Z')], ret='unit',
+         stmt_calls={'self._inbound_window_manager.window_opened': 'k_window_opened'}),
     dict(name='k_guard_increment_window', file='utilities.py', qual='guard_increment_window',
          fields=[], params=[('current', 'Z'), ('increment', 'Z')], ret='Z'),
     dict(name='k_validate_setting', file='settings.py', qual='_validate_setting',
